@@ -118,16 +118,20 @@ fn main() {
                 finish(&v, &plan);
             }
             let dotted = |x: u64| format!("{}.{}.{}.{}", (x >> 24) & 255, (x >> 16) & 255, (x >> 8) & 255, x & 255);
+            let v6peer = inp("v6peer") != 0;
             let list: Option<Vec<String>> = if configured {
-                Some((0..n).map(|i| format!("{}/{}", dotted(inp(&format!("addr{}", i))), inp(&format!("plen{}", i)))).collect())
+                Some((0..n).map(|i| if inp(&format!("v6_{}", i)) != 0 {
+                    let a = ((inp(&format!("addrhi{}", i)) as u128) << 64) | inp(&format!("addr{}", i)) as u128;
+                    format!("{}/{}", std::net::Ipv6Addr::from(a), inp(&format!("plen{}", i)))
+                } else { format!("{}/{}", dotted(inp(&format!("addr{}", i)) & 0xffff_ffff), inp(&format!("plen{}", i))) }).collect())
             } else { None };
             if configured && n == 0 {
                 println!("an empty allowlist cannot be configured through the builder: not replayable");
                 finish(&v, &plan);
             }
-            let peer = dotted(inp("peer"));
+            let peer = if v6peer { "::1".to_string() } else { dotted(inp("peer")) };
             let inside = inp("inside") != 0;
-            let addr = match serve(list.clone()) { Ok(a) => a, Err(e) => { println!("exporter does not start with {:?}: {}", list, e); v.push("terminates"); finish(&v, &plan) } };
+            let addr = match (if v6peer { serve_on("[::1]", list.clone(), |_| {}) } else { serve(list.clone()) }) { Ok(a) => a, Err(e) => { println!("exporter does not start with {:?}: {}", list, e); v.push("terminates"); finish(&v, &plan) } };
             let r = get(addr, &peer, "/metrics");
             println!("allowlist {:?}; peer {} (inside a listed network: {}) GET /metrics -> {:?}", list, peer, inside, r.as_ref().map(|x| x.0));
             let should_serve = !configured || inside;
